@@ -330,6 +330,22 @@ func (ef *EnumFlow) At(at ast.Node, e ast.Expr) (ValSet, bool) {
 	return ef.eval(e, st), true
 }
 
+// After is At for the program point just after node at.
+func (ef *EnumFlow) After(at ast.Node, e ast.Expr) (ValSet, bool) {
+	pt, ok := ef.g.Locate(at)
+	if !ok {
+		return nil, false
+	}
+	st, reachable := ef.in[pt.B]
+	if !reachable {
+		return ValSet{}, true
+	}
+	for i := 0; i <= pt.I && i < len(pt.B.Nodes); i++ {
+		st = ef.transfer(pt.B.Nodes[i], st)
+	}
+	return ef.eval(e, st), true
+}
+
 // BlockReachable reports whether the flow reaches the block containing n (value-feasibly).
 func (ef *EnumFlow) NodeReachable(n ast.Node) bool {
 	pt, ok := ef.g.Locate(n)
